@@ -30,8 +30,14 @@ def gen_case(rng: random.Random, kind=None, engine=None):
     null_rate = rng.choice([0.0, 0.2, 0.4])
     tables = []
     uid = 0
+    # ids unique over all tables, or restarting in every table (records of different datasets then share unique ids)
+    ids = "global" if k == 1 or rng.random() < 0.5 else "per_table"
+    # several input frames, or ONE pre-concatenated frame that carries the source_dataset column itself
+    layout = "tables" if k == 1 or rng.random() < 0.65 else "concat"
     for _ in range(k):
         rows = []
+        if ids == "per_table":
+            uid = 0
         for _ in range(rng.randint(2, 7)):
             uid += 1
             rows.append({
@@ -55,7 +61,7 @@ def gen_case(rng: random.Random, kind=None, engine=None):
         comps.append(cc)
     kind = kind or rng.choice(["u_full", "u_full", "u_seeded", "m_label_col", "m_pairwise", "prior", "prior"])
     case = {"engine": engine, "link_type": link_type, "tables": tables, "comparisons": comps, "kind": kind, "prior": 0.1,
-            "shuffle": rng.randrange(1 << 30), "tag": "random"}
+            "shuffle": rng.randrange(1 << 30), "tag": "random", "ids": ids, "layout": layout}
     n_adm = len(admissible_pairs(case))
     if kind == "u_full":
         case["max_pairs"] = rng.choice([n_adm, n_adm, n_adm + 1, 10 * n_adm + 5, 1e6, 2e4])
@@ -155,6 +161,11 @@ def build_linker(case, api):
     k = len(frames)
     if k == 1:
         return Linker(frames[0], settings, api)
+    if case.get("layout") == "concat":
+        rows = [dict(r, source_dataset=al) for al, t in zip(ALIASES, case["tables"]) for r in t]
+        rng.shuffle(rows)
+        one = impl.typed_frame(rows, {"unique_id": "int", "source_dataset": "str", "a": "str", "b": "str", "c": "int", "lab": "str"})
+        return Linker(one, settings, api)
     return Linker(frames, settings, api, input_table_aliases=ALIASES[:k])
 
 
@@ -365,7 +376,7 @@ def compare(ctx, cases, drv):
         n_adm = len(admissible_pairs(c))
         ctx.case({k: c[k] for k in c if k not in ("shuffle", "tag")}, len(training_pairs(c)) >= 2 or c["kind"] == "prior",
                  sample={"case": {k: c[k] for k in c if k not in ("shuffle",)}, "impl": r if isinstance(r, dict) else None} if sum(len(t) for t in c["tables"]) <= 4 else None)
-        ctx.count("kind", c["kind"]); ctx.count("engine", c["engine"]); ctx.count("link_type", c["link_type"]); ctx.count("n_tables", len(c["tables"]))
+        ctx.count("kind", c["kind"]); ctx.count("engine", c["engine"]); ctx.count("link_type", c["link_type"]); ctx.count("n_tables", len(c["tables"])); ctx.count("ids", c.get("ids", "global")); ctx.count("layout", c.get("layout", "tables"))
         if c["kind"].startswith("u"):
             ctx.count("sample_covers_all_pairs", full_sample(c) if c["kind"] == "u_full" else False); ctx.count("seed", c["seed"])
         if c["kind"] == "prior":
